@@ -351,3 +351,64 @@ def run_leg_g(run, Tb, G, sp, ref, words, ref_accepts):
             run.inconclusive_('contextual get/set difference did not reproduce: %s' % key)
     run.leg('G_contextual_get_set', texts=n)
     return n
+
+
+# ------------------------------------------------------------------------------------------ leg H: acceptance does not depend on what was parsed before
+H_TEXTS = ['x = a', 'f()', '{}', 'a.', '/re/.test(x)', '/a/g', 'if (x) y', 'with (o) p', 'a\nb\nc', '@', 'x = 1 /', 'return', '(', 'a ++', "'s' +",
+           'var get = 1', 'x = {get a(){}}', 'a = b\n/c/g', 'function f(){}', 'do ; while (a)']
+
+
+def h_verdict(text):
+    from calmjs.parse.parsers.es5 import parse
+    from calmjs.parse.walkers import ReprWalker
+    try:
+        return ReprWalker().walk(parse(text), pos=True)
+    except Exception as e:
+        return '%s: %s' % (type(e).__name__, e)
+
+
+def h_pairs():
+    """(first, second, verdict of second after first, verdict of second alone in a fresh interpreter state) for every pair that differs"""
+    import subprocess, json, os
+    code = ("import sys, json\nsys.path.insert(0, %r)\nfrom vplib import boot\nboot.load_plain()\nfrom vplib.checks import c03lex\n"
+            "print(json.dumps(c03lex.h_verdict(json.loads(sys.argv[1]))))\n") % common.VERIF
+    env = dict(os.environ, CALMJS_VERIF_SCRATCH=boot.scratch_dir())
+    alone = {}
+    for t in H_TEXTS:
+        r = subprocess.run([sys.executable, '-c', code, json.dumps(t)], capture_output=True, text=True, env=env, cwd=common.VERIF)
+        if r.returncode != 0:
+            raise common.HarnessError('history probe failed: %s' % r.stderr[-300:])
+        alone[t] = json.loads(r.stdout.strip().splitlines()[-1])
+    diffs = []
+    for a in H_TEXTS:
+        for b in H_TEXTS:
+            h_verdict(a)
+            got = h_verdict(b)
+            if got != alone[b]:
+                diffs.append((a, b, got, alone[b]))
+    return diffs
+
+
+def replay_h(d):
+    w = d['input']
+    h_verdict(w['first'])
+    got = h_verdict(w['second'])
+    return got != w['alone'], 'parse(%r) after parse(%r) gives %s; as the first parse of a process it gives %s' % (w['second'], w['first'], got[:160], w['alone'][:160])
+
+
+def run_leg_h(run):
+    from .. import replay as rp
+    diffs = h_pairs()
+    seen = set()
+    for a, b, got, alone in diffs:
+        key = 'C03 H: the result of parse() depends on the text parsed before (%s -> %s)' % ('error' if ': ' in got[:40] and got[:1] != '<' else 'tree', 'error' if alone[:1] != '<' else 'tree')
+        if key in seen:
+            continue
+        seen.add(key)
+        rpd = {'property': 'C03', 'input': {'claim': 'history', 'first': a, 'second': b, 'alone': alone}}
+        ok, detail = rp.run_in_subprocess(rpd)
+        if ok:
+            run.violation(key, detail[:400], rpd)
+        else:
+            run.inconclusive_('history dependence did not reproduce: %r then %r' % (a, b))
+    run.leg('H_history_independence', pairs=len(H_TEXTS) ** 2, texts=len(H_TEXTS))
